@@ -100,3 +100,12 @@ package loading
 //@   invariant [platforms] forall i int :: {pkg.Targets[i]} 0 <= i && i < len(pkg.Targets) ==> enrichedPlatforms(targets[mkLabel(KEY(), pkg.Targets[i].Name)], pkg.Targets[i], pkg)
 //@   invariant [names_distinct] forall i int, j int :: {pkg.Targets[i], pkg.Targets[j]} 0 <= i && i < j && j < len(pkg.Targets) ==> pkg.Targets[i].Name != pkg.Targets[j].Name
 //@   invariant [key] packagePath == KEY() || (packagePath == old(packagePath) && len(pkg.Targets) == 0)
+
+// C16: "packages merged under a mutex" - the loaded graph must not depend on the worker count. Each worker goroutine of
+// LoadPackages may add packages under loadedMutex, but a package stored under a path is never replaced: whatever a
+// critical section finds in the map is still there, as the same object, when the section ends (and other workers obey the
+// same rule, so at every acquire the map has only grown). A lookup made in one critical section and a store made in
+// another one breaks this.
+//@ func LoadPackages$2() ()
+//@   lock_protocol loadedMutex guards loadedPackages [stored_packages_are_never_replaced] loadedPackages != nil &&
+//@        (forall k string :: {has(loadedPackages, k)} old(has(loadedPackages, k)) ==> has(loadedPackages, k) && loadedPackages[k] == old(loadedPackages[k]))
